@@ -213,6 +213,26 @@ ADDED = {
 for _pid, _t in ADDED.items():
     CLAIMED[_pid]["text"] += _t
 
+# additions of round 9
+ADDED9 = {
+    "C01": " The many-open-exchanges simulation (Q2ManySpec) is replayed under this property too (a message lost in the incoming QoS 2 queue is a delivery that never happens).",
+    "C02": " QosResumeSpec: exchanges that span connections of a persistent session (PUBLISH and PUBREC on one connection, PUBREL on the next), all paths. Concurrent regime: recorded runs of a real broker under load validated by TLC against AnswerTrace (between two packets handled on a connection, the packets other than PUBLISH it enqueues are exactly the answer to the packet handled: one PUBACK / PUBREC / PUBCOMP with its identifier; nothing is owed when the run is quiet).",
+    "C03": " Codec!Mods: protocol level of a decoded CONNECT changed through SetVersion (the protocol name follows the level).",
+    "C07": " Sess1LastSpec (histories of a persistent session: resumed subscriptions are unsubscribed / re-subscribed like any other). Concurrent regime: AnswerTrace on recorded runs with subscription churn under load (every handled SUBSCRIBE / UNSUBSCRIBE answered exactly once with its identifier).",
+    "C09": " Ending pings-disconnect-eof (a backlog of PINGREQs, the DISCONNECT and the end of the stream in one write). Trace validation: the life-cycle events of every broker connection of these runs (hook verifLife: start, goroutine exits, DISCONNECT seen, stop phases, will handed out) are validated by TLC against LifeTrace / Life: the will is handed out at most once, only after the join, iff the will flag of the connection's own CONNECT is still set, never after a DISCONNECT was handled.",
+    "C10": " A wildcard filter in the session histories. The life-cycle events of the connections of these runs are validated against Life (a rejection there is reported under C16 / C09).",
+    "C11": " PwSpec: a password-checking authenticator; accepted logins, ends and refused logins (right user name with a wrong / without a password, also with the client identifier of accepted connections) in every order, then a probe.",
+    "C13": " Concurrent callers: 3,000 (thorough 40,000) trials on real queues brought to a full, wrapped ring, then the Wait that makes the ring grow, an Ack of the head entry and a third call released together by a spin barrier, then a sequential drain; the recorded call/return histories must be linearizable w.r.t. the AckQueue actions (AckQueueLinTrace, unlogged linearization points placed by TLC).",
+    "C14": " A call that returns where the specification waits (producer in a full ring, consumer in an empty one) is this property's observation in the byte-granular cases too.",
+    "C16": " Teardown refines the life-cycle skeleton Life (TLC: every Teardown step is a Life step or leaves Life's variables unchanged), and the hook events of every broker connection of the executed fault sequences are validated by TLC against LifeTrace (quick: 6.6 k recordings, 390 k events): stop joins only after the three goroutines have exited, nothing of a connection moves after stop.done, every started connection is done when all connections of its broker were ended. Ending ping-halfclose: the client shuts down its sending direction only (the broker reads the end of the stream while its writes still block).",
+    "C20": " InManySpec: up to 40 inbound QoS 2 exchanges open at once (TLC simulation; the client's queue of incoming exchanges grows while its head has moved).",
+}
+for _pid, _t in ADDED9.items():
+    CLAIMED[_pid]["text"] += _t
+CLAIMED["C13"]["note"] = CLAIMED["C13"]["note"].replace("one caller at a time.", "one caller at a time in the graph walks and random drivers; concurrent callers in the linearizability trials (interleavings are whatever the scheduler produces around a spin barrier).")
+CLAIMED["C13"]["technique"] = "TLA+ specification (AckQueue) model-checked with TLC; state-graph replay + TLC trace validation (AckQueueTrace, AckQueueLinTrace)"
+CLAIMED["C16"]["technique"] = CLAIMED["C16"]["technique"] + "; life-cycle hook events validated by TLC against LifeTrace (Life is refined by Teardown)"
+
 NOT_APPLICABLE = {
     "C18": "data-race freedom is a property of individual memory accesses under the Go memory model; a TLA+ specification "
            "observes actions, not loads and stores, and could only be bound to the code by hand-placed annotations (DESIGN.md section 7)",
